@@ -5,17 +5,19 @@
 (*   {"ev":"loaded","src","kind","api","code":{fam,cs,fl},   one load_module_string/consult_...   *)
 (*    "pre":{counters before the call},"post":{counters after it}}                               *)
 (* The spec replays the loads through Loader!LoadText.  What the counters *are* is not logged    *)
-(* knowledge of the specification: the reference values are unlogged variables fixed by the      *)
-(* observations themselves (the counters just before a reload; the counters after the 2nd load). *)
+(* knowledge of the specification: the reference value of a reload is fixed by the observation   *)
+(* itself (the counters just before it, i.e. after the previous load of the history).            *)
 (* A load that is the identity on the abstract state (the same text by the same source again,    *)
-(* k >= 2) must be the identity on the counters the property names; after the 2nd load the       *)
-(* counters must stay what they were after the 2nd load while the abstract state stays the same. *)
+(* k >= 2) must be the identity on the counters the property names.  k = 2 is the comparison     *)
+(* with the first load (the wording of C35), k >= 3 the comparison with the 2nd load (steady       *)
+(* state); they are reported as different kinds.  Comparing absolute values across other loads    *)
+(* would blame a reload for what a different operation in between left behind.                    *)
 (* Every event is consumed; each discrepancy is printed as a verdict (one JSON line) so that one *)
 (* pass judges all histories -- the verdicts, not the driver, decide.                             *)
 EXTENDS Loader, Json, IOUtils
 
-VARIABLES l, L, hist, ref
-(* hist: the operation keys of this history so far; ref: key -> [L, post] recorded at the 2nd load *)
+VARIABLES l, L, hist
+(* hist: the operation keys of this history so far *)
 
 Rec == ndJsonDeserialize(IOEnv.TRACE)
 
@@ -26,12 +28,11 @@ Informative == {"f64_entries", "code_len"}
 Counters == Asserted \cup Informative
 
 Range(s) == {s[j] : j \in DOMAIN s}
-NoRef == [L |-> L0, post |-> <<>>, set |-> FALSE]
 
-Init == l = 1 /\ L = L0 /\ hist = <<>> /\ ref = <<>>
+Init == l = 1 /\ L = L0 /\ hist = <<>>
 
 Reset == /\ Rec[l].ev = "reset"
-         /\ L' = L0 /\ hist' = <<>> /\ ref' = <<>>
+         /\ L' = L0 /\ hist' = <<>>
 
 Verdict(kind, c, k, e, want, got) ==
   PrintT(ToJson([line |-> l, kind |-> kind, ctr |-> c, k |-> k, want |-> want, got |-> got,
@@ -45,16 +46,12 @@ Loaded ==
          after == LoadText(L, e.src, e.kind, code)
          k     == 1 + Cardinality({j \in DOMAIN hist : hist[j] = key})
          noop  == after = L
-         r     == IF key \in DOMAIN ref THEN ref[key] ELSE NoRef
      IN /\ (noop /\ k >= 2) =>
              \A c \in Counters :
-               /\ IF e.post[c] # e.pre[c]
-                  THEN Verdict(IF k = 2 THEN "first-reload" ELSE "steady", c, k, e, e.pre[c], e.post[c]) ELSE TRUE
-               /\ IF k >= 3 /\ r.set /\ r.L = after /\ e.post[c] # r.post[c]
-                  THEN Verdict("vs-2nd-load", c, k, e, r.post[c], e.post[c]) ELSE TRUE
+               IF e.post[c] # e.pre[c]
+               THEN Verdict(IF k = 2 THEN "first-reload" ELSE "steady", c, k, e, e.pre[c], e.post[c]) ELSE TRUE
         /\ L' = after
         /\ hist' = Append(hist, key)
-        /\ ref' = IF k = 2 THEN (key :> [L |-> after, post |-> e.post, set |-> TRUE]) @@ ref ELSE ref
 
 Next == /\ l <= Len(Rec)
         /\ l' = l + 1
